@@ -54,4 +54,40 @@ Proof.
   exact (grun_inv (pn_tol cfg) (pn_crit cfg K) (pn_body cfg K) (pn_objective cfg K) (fun s => I (pn_w s) (pn_Xw s)) Hstep _ s0 out HI0 Hrun).
 Qed.
 End Inv.
+
+(* the same transport when the invariant needs the direction and the line search TOGETHER (the regenerated kernels keep
+   Xw = X w + c only along the consistent direction pair the direction kernel returns) *)
+Section InvIter.
+Variable I : list F -> list F -> Prop.
+Variable P : list Z -> Prop.                       (* what every working set satisfies (distinct, in range) *)
+Hypothesis P_topk : forall opt k, P (pk_topk K opt k).
+Hypothesis I_iteration : forall w Xw g ws t delta Xdelta lipws w' Xw' g',
+  P ws -> I w Xw -> pk_direction K w Xw g ws t = Ok (delta, Xdelta, lipws) ->
+  pk_linesearch K w Xw delta Xdelta ws = Ok (w', Xw', g') -> I w' Xw'.
+
+Lemma pn_inner_loop_I2 fuel ws tol_in w Xw g n w' Xw' n' :
+  P ws -> I w Xw -> pn_inner_loop cfg K fuel ws tol_in w Xw g n = Ok (w', Xw', n') -> I w' Xw'.
+Proof.
+  intros HP. revert w Xw g n. induction fuel as [|fuel IH]; intros w Xw g n HI Hrun; simpl in Hrun.
+  - inversion Hrun; subst; assumption.
+  - apply bind_ok in Hrun as ([[delta Xdelta] lipws] & Hd & Hrun).
+    apply bind_ok in Hrun as ([[w1 Xw1] g1] & Hl & Hrun).
+    apply bind_ok in Hrun as (opt & Ho & Hrun). apply bind_ok in Hrun as (sin & Hm & Hrun).
+    assert (HI1 : I w1 Xw1) by (eapply I_iteration; eauto).
+    destruct (negb _); [inversion Hrun; subst; assumption|eapply IH; eauto].
+Qed.
+
+Theorem pn_solve_preserves_iter w0 Xw0 out :
+  I w0 Xw0 -> pn_solve cfg K (Some w0) (Some Xw0) = Ok out -> I (pn_w (g_s out)) (pn_Xw (g_s out)).
+Proof.
+  intros HI Hrun. unfold pn_solve in Hrun. destruct (negb _); [discriminate|].
+  assert (Hstep : forall s c sc s', I (pn_w s) (pn_Xw s) -> pn_crit cfg K s = Ok (c, sc) -> pn_body cfg K s c sc = Ok s' -> I (pn_w s') (pn_Xw s')).
+  { intros s [opt grad] sc s' HIs _ Hb. unfold pn_body in Hb.
+    apply bind_ok in Hb as (gs & Hgs & Hb). apply bind_ok in Hb as (gws & Hg & Hb).
+    apply bind_ok in Hb as ([[w Xw] n] & Hin & Hb). inversion Hb; subst; simpl. eapply pn_inner_loop_I2; [apply P_topk|exact HIs|exact Hin]. }
+  set (s0 := {| pn_w := w0; pn_Xw := Xw0; pn_inner := 0 |}) in Hrun.
+  assert (HI0 : I (pn_w s0) (pn_Xw s0)) by exact HI.
+  exact (grun_inv (pn_tol cfg) (pn_crit cfg K) (pn_body cfg K) (pn_objective cfg K) (fun s => I (pn_w s) (pn_Xw s)) Hstep _ s0 out HI0 Hrun).
+Qed.
+End InvIter.
 End Any.
